@@ -1268,6 +1268,8 @@ func checkC13(w *World, r *Report) {
 	}
 	pr.lta.export(r, "C13.R1", []string{"bypasses-middleware", "middleware-applied-twice", "chain-does-not-end-in-the-receiver", "unclassified-delivery", "delivery-of-unknown-message"}, "middleware wraps every delivery")
 	checkApplyMW(w, r, pr)
+	r.Rule("C13.R4", "the chain given at spawn belongs to that spawn alone (fresh middleware slice per Opts)", 2)
+	checkDefaultOptsFresh(w, r, "C13.R4")
 	// R3: every delivery site: argument is P0.context / FV:p.context; in the delivery function message and sender stores precede it
 	evD := pr.evDeliver()
 	n := 0
